@@ -9,7 +9,9 @@
           seg    : TRUE segmented object / FALSE a single unsegmented Data,
           fin    : segment number whose FinalBlockId designates itself as last, or -1 = no marker,
           disc   : which segment answers the CanBePrefix discovery Interest (ignored if ~seg),
-          retry  : configured number of attempts per request]                         *)
+          retry  : configured number of attempts per request,
+          deep   : the object is published one level below the requested prefix (prefix/version/seg=k):
+                   irrelevant to the state machine, it only changes the names the producer uses]     *)
 EXTENDS Integers, Sequences, FiniteSets, TLC
 
 CONSTANTS MaxN, MaxRetry
@@ -21,8 +23,8 @@ Disc == -1                      \* target value of the discovery request
 Whole == -2                     \* "segment id" of the unsegmented content
 
 CfgSpace ==
-  { c \in [n : 0..MaxN, seg : BOOLEAN, fin : -1..(MaxN-1), disc : 0..(MaxN-1), retry : 1..MaxRetry] :
-       /\ (c.n = 0 => (c.seg /\ c.fin = -1 /\ c.disc = 0))
+  { c \in [n : 0..MaxN, seg : BOOLEAN, fin : -1..(MaxN-1), disc : 0..(MaxN-1), retry : 1..MaxRetry, deep : BOOLEAN] :
+       /\ (c.n = 0 => (c.seg /\ c.fin = -1 /\ c.disc = 0 /\ ~c.deep))
        /\ (~c.seg => (c.n = 1 /\ c.fin = -1 /\ c.disc = 0))
        /\ (c.seg /\ c.n > 0 => (c.fin < c.n /\ c.disc < c.n)) }
 
@@ -67,6 +69,7 @@ RespLost ==
      ELSE pc' = "req" /\ err' = err /\ tries' = tries + 1
   /\ UNCHANGED <<cfg, target, yielded, sent>>
 
+\* any Nack reason (Congestion 50, Duplicate 100, NoRoute 150, ...) ends the fetch: Nacks are never retried
 RespNack ==
   /\ pc = "wait"
   /\ pc' = "fail" /\ err' = "nack"
